@@ -8,7 +8,7 @@ from ..impl import nap, farr, iset, iset_ns, is_canonical_ns
 RULE = ("constructor: every multiset of <=3 (quick; thorough <=4) (start,end) pairs over the grid {0..4}^2 "
         "(zero-length, inverted, nested, overlapping, touching, duplicated pairs; every order type), each at one of the "
         "lattice scales 0.5us / 1us / 2us / 1ms / 2^-9 s / 1 s (so the 1us trim is smaller than, equal to and larger than "
-        "an interval), through the input forms two arrays / array of pairs / DataFrame / scalars / IntervalSet and the units "
+        "an interval), through the input forms two arrays / array of pairs / DataFrame / scalars / IntervalSet (also re-read in another unit) / unsigned, int32 and float32 arrays and the units "
         "s, ms, us, in a random presentation order; seeded random sets of <=12 pairs; operations: union, intersect, set_diff, "
         "split, merge_close_intervals, drop_short/long, indexing, time_span, find_support, dropna/threshold supports on "
         "sampled canonical operands. distinct = distinct (multiset of pairs, scale); non-trivial = at least one pair")
@@ -71,6 +71,15 @@ def build(form, unit, pairs_ns, rng):
         return nap.IntervalSet(pd.DataFrame({"start": st, "end": en}, dtype=float), time_units=unit)
     if form == "scalar":
         return nap.IntervalSet(start=st[0], end=en[0], time_units=unit)
+    if form in ("uint", "int32", "float32"):
+        # integer / narrow dtypes, where the values are representable (non-negative whole numbers of the unit for unsigned)
+        dt = {"uint": rng.choice([np.uint8, np.uint16, np.uint64]), "int32": np.int32, "float32": np.float32}[form]
+        ok = all(float(v).is_integer() and abs(v) < 120 for v in st + en) and (form != "uint" or all(v >= 0 for v in st + en))
+        if not ok:
+            return nap.IntervalSet(start=np.array(st), end=np.array(en), time_units=unit)
+        if rng.random() < 0.5:
+            return nap.IntervalSet(start=np.array(st).astype(dt), end=np.array(en).astype(dt), time_units=unit)
+        return nap.IntervalSet(np.array(list(zip(st, en))).reshape(-1, 2).astype(dt), time_units=unit)
     if form == "iset":
         return nap.IntervalSet(nap.IntervalSet(start=np.array(st), end=np.array(en), time_units=unit))
     raise ValueError(form)
@@ -100,6 +109,38 @@ def ctor_cases(ctx, cases):
             m = [] if out[n] == "-" else [tuple(int(v) for v in p.split(":")) for p in out[n].split(",")]
             if m != got:
                 ctx.fail("corr", "IntervalSet(...) != model ISet.mk", inp, impl=got, model=m)
+
+
+def rescaled_cases(ctx, n):
+    """IntervalSet(<IntervalSet>, time_units=u): the numbers of an existing set re-read in another unit (the constructor rescales and
+    rounds them to 1 ns, which can make neighbours touch or intervals vanish) - the result is the constructor applied to the
+    rescaled, rounded endpoints, hence canonical"""
+    lines, meta = [], []
+    for k in range(n):
+        q = ctx.rng.choice([2.5e-7, 5e-7, 1e-6, 1e-3])
+        pts = sorted(ctx.rng.sample(range(0, 60), 2 * ctx.rng.randint(1, 5)))
+        st = [v * q for v in pts[0::2]]; en = [v * q for v in pts[1::2]]
+        inner = nap.IntervalSet(start=np.array(st), end=np.array(en))
+        unit = ctx.rng.choice(["ms", "us", "s"])
+        f = {"s": 1.0, "ms": 1e3, "us": 1e6}[unit]
+        inp = dict(level="rescaled", inner_start=[float(v) for v in inner.start], inner_end=[float(v) for v in inner.end], unit=unit)
+        ctx.case(("rs", tuple(pts), q, unit))
+        try:
+            outer = nap.IntervalSet(inner, time_units=unit)
+        except Exception as e:
+            ctx.fail("oracle", "IntervalSet(IntervalSet, time_units) raised %r" % (e,), inp); continue
+        got = list(zip(*iset_ns(outer)))
+        if not is_canonical_ns(*iset_ns(outer)):
+            ctx.fail("oracle", "IntervalSet(IntervalSet, time_units=%s) not canonical" % unit, inp, impl=got)
+        s_ns = [int(v) for v in np.rint(np.around(np.asarray(inner.start) / f, 9) * 1e9)]
+        e_ns = [int(v) for v in np.rint(np.around(np.asarray(inner.end) / f, 9) * 1e9)]
+        lines.append("mkiset %s %s" % (enc(s_ns), enc(e_ns))); meta.append((inp, got))
+    out = ctx.lean.run(lines) if ctx.lean else None
+    if out is not None:
+        for (inp, got), o in zip(meta, out):
+            m = [] if o == "-" else [tuple(int(v) for v in p.split(":")) for p in o.split(",")]
+            if m != [tuple(g) for g in got]:
+                ctx.fail("corr", "IntervalSet(IntervalSet, time_units) != model constructor on the rescaled, rounded endpoints", inp, impl=got, model=m)
 
 
 def op_cases(ctx, n):
@@ -207,7 +248,20 @@ def run(ctx):
             s = ctx.rng.randrange(-10, 30); e = s + ctx.rng.choice([0, 0, 1, 1, 2, 3, 5, -1, -2])
             pairs.append((s * sc, e * sc))
         cases.append((pairs, ctx.rng.choice(forms), ctx.rng.choice(units)))
+    # integer and narrow dtypes: whole numbers of the unit (scale = the unit itself), half of them non-negative
+    for _ in range(600 if ctx.quick else 6000):
+        unit = ctx.rng.choice(units)
+        sc = {"s": 10**9, "ms": 10**6, "us": 10**3}[unit]
+        lo = ctx.rng.choice([0, 0, -10])
+        pairs = []
+        for _ in range(ctx.rng.randint(1, 6)):
+            s = ctx.rng.randrange(lo, 30); e = s + ctx.rng.choice([0, 1, 1, 2, 3, 5, -1])
+            if lo == 0:
+                e = max(e, 0)
+            pairs.append((s * sc, e * sc))
+        cases.append((pairs, ctx.rng.choice(["uint", "uint", "int32", "float32"]), unit))
     ctor_cases(ctx, cases)
+    rescaled_cases(ctx, 300 if ctx.quick else 4000)
     op_cases(ctx, 400 if ctx.quick else 6000)
 
 
@@ -217,7 +271,7 @@ def replay(ctx, rec):
     if i.get("level") == "ctor":
         ctor_cases(ctx, [([tuple(p) for p in i["pairs_ns"]], i["form"], i["unit"])])
     else:
-        print("operation-level case: re-run the check with the recorded seed to reproduce"); return False
+        return None      # not a stand-alone case: main re-executes the recorded run
     for f in ctx.failures[n0:]:
         print(f["kind"], f["what"], "impl=", f["impl"], "model=", f["model"])
     return len(ctx.failures) == n0
